@@ -31,7 +31,7 @@ def gen_pairs(chk):
     rng = chk.rng
     big = chk.tier == "thorough"
     pairs = []
-    ks = list(range(-320, 309, 1 if big else 23)) + [-308, -307, -300, -299, -16, -15, -8, -1, 0, 1, 2, 3, 8, 15, 16, 22, 23, 100, 300, 307, 308]
+    ks = list(range(-320, 309, 3 if big else 23)) + [-308, -307, -300, -299, -16, -15, -8, -1, 0, 1, 2, 3, 8, 15, 16, 22, 23, 100, 300, 307, 308]
     for k in sorted(set(ks)):
         try:
             p = float("1e%d" % k)
